@@ -49,6 +49,14 @@ Theorem C11_refuted_ref_below :
 Proof. exact C11P.refuted_ref_below. Qed.
 Print Assumptions C11_refuted_ref_below.
 
+(* refuted, class 5 (open): deletion records of one row written in the same millisecond on two peers that
+   held different versions share their key and replace each other: a record is not present everywhere *)
+Theorem C11_refuted_key_clash :
+  spec_C11 C11P.witness_key_clash (run_C11 C11P.witness_key_clash) = false /\ known_C11 C11P.witness_key_clash = [5] /\
+  map (fun r => map t_mdate (tombs r)) (run_sys (init_sys 2%N) (c11_ops C11P.witness_key_clash)) = [[1000]; [1000]].
+Proof. exact C11P.refuted_key_clash. Qed.
+Print Assumptions C11_refuted_key_clash.
+
 (* batching: a day's deletion records may arrive cut into any number of batches; applying them batch by
    batch gives what applying the whole answer gives, provided the split loses no record (the proviso is
    checked on the code by the harness case 'batching': 55 records of one day in answers of ~4 KiB) *)
